@@ -2,17 +2,20 @@ PROP = dict(
     gen=["connlocks"],
     race=True,
     proof_files=["Properties/C06.v", "Proofs/ConnC06.v"],
-    model_files=["Model/LockProto.v"],
-    trusted=["go/ast extraction of lock and map actions (harness/gen_connlocks.go)", "the Go race detector"],
-    assumptions=["context, channels, net.Conn and rand.Int31 are safe for concurrent use as documented", "absence of race reports on finitely many executions is evidence, not proof"],
+    model_files=["Model/LockTable.v"],
+    trusted=["translation of the Go source into the lock/access control-flow graph (harness/c06_extract.go, go/ast + go/types; the held-set certificate it emits is re-checked in Coq)",
+             "the Go race detector"],
+    assumptions=["the referents of context, channel, net.Conn, sync and sync/atomic typed state are safe for concurrent use as documented",
+                 "happens-before through channels/contexts is not modelled (a plain field ordered only that way would be reported)",
+                 "absence of race reports on finitely many executions is evidence, not proof"],
 )
 GEN = {"connlocks": "Gen/ConnLocks.v"}
-ENGINE = {"name": "conn", "path": "coq/Model/LockProto.v coq/Proofs/ConnC06.v harness/c06.go harness/gen_connlocks.go", "serves_properties": ["C06"],
-          "kind_free_text": "Coq lock-protocol model over routines extracted from conn.go + race-detector run of the README workload and the forced schedules"}
+ENGINE = {"name": "conn", "path": "coq/Model/LockTable.v coq/Proofs/ConnC06.v harness/c06.go harness/c06_extract.go harness/c06_dyn.go harness/c06_tie.go harness/gen_connlocks.go", "serves_properties": ["C06"],
+          "kind_free_text": "Coq lock-set checker proved sound for any table (any number of threads, any schedule) + table of lock operations and accesses to every location of Conn extracted per README role from the current source + race-detector runs of the README roles, one child process per configuration"}
 MANIFEST = dict(
     engine="conn",
     design_ref="DESIGN.md §5 C06; notes/design_C06.md; notes/design_conn_engine.md",
-    technique='Coq proof of the lock protocol over routines extracted from conn.go (go/ast, regenerated each run) for any number of threads and schedules + race-detector run (go build -race) of the README workload and forced schedules',
-    text='Theorems in coq/Properties/C06.v: every function touching Conn.pending is well locked (kernel evaluation of the regenerated table); for threads running any sequences of these routines a map access happens only while holding the mutex, and any two map accesses of different threads are separated by Unlock of the first then Lock of the second (C06_race_free); the pre-repair routines race. Dynamically the -race build runs the README workload (Watch, EnquireLink, 1..16 submitting goroutines, consumer, asynchronous peer, Close) and forced schedules; a report whose racing access is library code, or a runtime concurrent-map abort, is the failing input.',
-    note="PARTIAL by nature: the extraction is syntactic; state other than the pending table relies on Go's documented guarantees and the race detector on the executions that ran; the Go memory model is outside the model. Trusted: Coq kernel; go/ast extraction; the race detector. No axioms.",
+    technique='Coq proof, for any table, that a checked lock/access control-flow graph has no reachable race state (any number of threads, any interleaving, any branches); the table of the code is regenerated each run from the source (go/ast + go/types: every location of Conn, per README role, callees/closures/defers inlined, path-sensitive in held mutexes and defers) and the checker is evaluated on it by the kernel in generated cases; plus race-detector runs (go build -race) of the README roles, one child process per configuration; plus confirmation of the predicted lock events on the running code (mutex-contention profile)',
+    text='Theorems in coq/Properties/C06.v (no field, function or mutex name occurs; nothing is proved by evaluating the code\'s table at compile time): C06_invariant (a thread at a node holds what the node\'s certificate claims; a mutex has one writer or readers only), C06_mutual_exclusion, C06_race_free (for a table passing table_wf and every location passing loc_ok, no reachable state has two threads about to perform conflicting accesses), C06_no_adjacent_race (trace form), C06_code (instance for the regenerated table; its boolean hypotheses are the generated cases of the run, one per location), C06_unguarded_refuted (an unguarded flag: the checker refuses exactly it and a race state is reachable). Direct failures: two README roles access the same non-synchronisation state, one writing, with no common mutex (static, names both sites); a race report with a frame inside go-smpp under one of the configurations (README workload, long-running senders with 2 ms..default deadlines, keep-alive failure with the application\'s Close from a timer, teardown, forced schedules); a runtime concurrent-map abort.',
+    note="PARTIAL by nature: the translation source -> graph is trusted; state that is not a location of Conn (captured variables) and roles the extraction cannot interpret rest on the race detector; happens-before through channels is not modelled; the Go memory model is outside the model. Trusted: Coq kernel; c06_extract.go; the race detector. No axioms.",
 )
